@@ -25,8 +25,20 @@ open EngineModel EngineModel.Gen.Beatgrid
 
 variable {α : Type}
 
+set_option linter.unusedSimpArgs false
+
+-- the modular conversions are only ever rewritten by explicit lemmas below; keeping the unifier from
+-- unfolding them (`% 2^64` on symbolic lengths) makes a proof that no longer applies fail in seconds
+attribute [local irreducible] Cxx.U64.sub Cxx.U64.add Cxx.U64.mul Cxx.u64OfInt Cxx.i64OfU64 Vec.wrapI32
+
 -- a proof that no longer goes through must fail quickly (the check reports it), not after minutes
-set_option maxHeartbeats 50000
+set_option maxHeartbeats 16000
+
+/-- Close a goal between two `Res` computations that differ by monad steps only.  Deliberately
+weak (no definitional unfolding): when the regenerated code differs, it fails at once. -/
+macro "res_rfl" : tactic =>
+  `(tactic| first | with_reducible rfl
+                  | (simp only [Res.bind_ok, Res.bind_throw, Res.bind_ub, Res.pure_eq]; done))
 
 /-! ### vocabulary lemmas -/
 
@@ -107,17 +119,18 @@ theorem block2_eq (num : Num α) (g : List (Marker α)) (n : Int) :
 theorem block3_eq (num : Num α) (a b : Marker α) (rest : List (Marker α)) (n : Int) :
     normalize_block3 num (a :: b :: rest) n = fixFirst num (a :: b :: rest) := by
   unfold normalize_block3 fixFirst
-  simp only [Vec.get, Vec.setOff, Vec.setIndex, List.getElem?_cons_zero, List.getElem?_cons_succ,
-    Res.bind_ok, List.set_cons_zero]
+  -- (`frontPos`: the same block written with `front()` for `[0]` translates differently, same proof)
+  simp only [Vec.get, Vec.setOff, Vec.setIndex, Vec.frontPos, List.isEmpty_cons, Bool.false_eq_true, if_false,
+    List.getElem?_cons_zero, List.getElem?_cons_succ, Res.bind_ok, List.set_cons_zero]
   cases chk64 (b.index - a.index) with
   | ok di =>
     simp only [Res.bind_ok]
     cases chk64 (4 + a.index) with
-    | ok k => rfl
-    | throw e => rfl
-    | ub u => rfl
-  | throw e => rfl
-  | ub u => rfl
+    | ok k => res_rfl
+    | throw e => res_rfl
+    | ub u => res_rfl
+  | throw e => res_rfl
+  | ub u => res_rfl
 
 theorem block4_eq (num : Num α) (pre : List (Marker α)) (p l : Marker α) (n : Int)
     (hp : In32 p.index) (hlen : (pre ++ [p, l]).length ≤ 2147483648) :
@@ -138,12 +151,15 @@ theorem block4_eq (num : Num α) (pre : List (Marker α)) (p l : Marker α) (n :
     Vec.chk32_of_in32 (by rw [hL] at hlen; unfold In32; omega)
   have hgl : (pre ++ [p, l])[pre.length + 1]? = some l := by simp
   have hgp : (pre ++ [p, l])[pre.length]? = some p := by simp
+  -- (`back()` for `[last]`)
+  have hback : ∀ x : Marker α, Vec.backPos (pre ++ [p, x]) = .ok (pre.length + 1) := by
+    intro x; unfold Vec.backPos; simp
   unfold normalize_block4 fixLast
   rw [hr]
-  simp only [hlast, hu1, hc, Res.bind_ok, hu0, Vec.get_of_getElem? hgl, Vec.get_of_getElem? hgp]
+  simp only [hlast, hu1, hc, Res.bind_ok, hu0, hback, Vec.get_of_getElem? hgl, Vec.get_of_getElem? hgp]
   cases chk64 (l.index - p.index) with
-  | throw e => rfl
-  | ub u => rfl
+  | throw e => res_rfl
+  | ub u => res_rfl
   | ok di =>
     simp only [Res.bind_ok]
     cases hce : num.ceil32 (num.div (num.sub (num.ofInt n) l.off)
@@ -152,8 +168,8 @@ theorem block4_eq (num : Num α) (pre : List (Marker α)) (p l : Marker α) (n :
     | some adj =>
       dsimp only
       cases hil : chk64 (l.index + adj) with
-      | throw e => rfl
-      | ub u => rfl
+      | throw e => res_rfl
+      | ub u => res_rfl
       | ok il =>
         simp only [Res.bind_ok]
         by_cases h1 : il ≤ p.index
@@ -162,7 +178,7 @@ theorem block4_eq (num : Num α) (pre : List (Marker α)) (p l : Marker α) (n :
           · simp [h1, h2]
           · have hw : Vec.wrapI32 il = il :=
               Vec.wrapI32_of_in32 (by unfold In32 at hp ⊢; omega)
-            simp [h1, h2, hw, Vec.setOff, Vec.setIndex]
+            simp [h1, h2, hw, hback, Vec.setOff, Vec.setIndex]
 
 /-! ### the whole function -/
 
